@@ -39,7 +39,7 @@ var Check = core.Check{
 const maxCorpusFile = 1 << 20
 
 func bounds(r *core.Run) (T, O, K int) {
-	T = core.Pick(r, 64, 512)
+	T = core.Pick(r, 32, 512)
 	O = T
 	K = core.Pick(r, 1, 3)
 	if s := os.Getenv("C06_BOUND"); s != "" { // dev knob
@@ -49,7 +49,8 @@ func bounds(r *core.Run) (T, O, K int) {
 	return
 }
 
-const crossTrunc = 64
+// cross-format section: truncations of every seed under every format (quick: 16, thorough: 64)
+var crossTrunc = 64
 
 // seedCaps: a seed is decoded, dumped and converted ~2700 times; candidates whose
 // intact tree is huge (one value per byte of a ROM image, ...) are passed over for
@@ -90,6 +91,7 @@ func run(r *core.Run) {
 	}
 	w.startWatchdog()
 	T, O, K := bounds(r)
+	crossTrunc = core.Pick(r, 16, 64)
 	formats := formatNames()
 	only := os.Getenv("VERIF_ONLY")
 
@@ -273,8 +275,22 @@ func run(r *core.Run) {
 			if cut {
 				break
 			}
-			rs := structRanges(s, maxR)
+			rs, leaves := structRanges(s, maxR, core.Pick(r, 1500, 6000))
 			total["struct_ranges"] += int64(len(rs))
+			total["struct_leaf_ranges"] += int64(len(leaves))
+			// every leaf field of the tree set to all ones (counts, lengths, offsets and
+			// length prefixes at their maximum), own format and probe
+			for li, rg := range leaves {
+				m := Mut{Op: "onesv", Off: rg[0], Val: rg[1]}
+				if !m.Applies(s.Data, T) {
+					continue
+				}
+				s, m := s, m
+				mk := func() []byte { return m.Apply(s.Data) }
+				ord := si*1000 + li%1000
+				runCase("struct", ord, Case{Sec: "struct", Format: s.Format, Seed: s, Mut: &m}, mk)
+				runCase("struct", ord, Case{Sec: "struct", Format: "probe", Probe: true, Seed: s, Mut: &m}, mk)
+			}
 			for ri, rg := range rs {
 				for _, op := range structuralOps {
 					m := Mut{Op: op, Off: rg[0], Val: rg[1]}
@@ -459,6 +475,7 @@ func (w *worker) sentinel() bool {
 // parent: derive the completed grid prefix when the deadline cut the enumeration.
 func parent(r *core.Run) {
 	T, O, _ := bounds(r)
+	crossTrunc = core.Pick(r, 16, 64)
 	grid := Grid(T, O)
 	res := map[string]any{}
 	for _, sec := range []string{"empty", "own", "struct", "cross"} {
